@@ -23,20 +23,26 @@ partial def hasArray : Codec → Bool
   | .unionOne c _ => hasArray c
   | _ => false
 
-/-- is there an array codec below a map codec (then a damaged map count can shift bytes into an array count) -/
-partial def arrayUnderMap : Codec → Bool
-  | .map v _ => hasArray v
-  | .array c _ => arrayUnderMap c
-  | .pointer c => arrayUnderMap c
-  | .record _ cs _ => cs.any arrayUnderMap
-  | .union cs => cs.any arrayUnderMap
-  | .unionOne c _ => arrayUnderMap c
-  | _ => false
+/-- summary of a codec in decoding order: (contains a map, contains an array, some map count is read before some array count) -/
+abbrev MA := Bool × Bool × Bool
 
-/-- may the recorded finding D14 explain memory / time spent on this case? only if an array codec can be reached by the
-damage: a mutated MAP count is not D14 unless an array sits below a map -/
+def MA.seq (a b : MA) : MA := (a.1 || b.1, a.2.1 || b.2.1, a.2.2 || b.2.2 || (a.1 && b.2.1))
+
+/-- a damaged MAP count shifts every byte decoded after it, so an array count that is read later (below the map, in a
+later item of an enclosing collection, or in a later field) can become garbage -/
+partial def mapThenArray : Codec → MA
+  | .map v _ => let s := mapThenArray v; MA.seq (true, false, false) (MA.seq s s)
+  | .array c _ => let s := mapThenArray c; MA.seq (false, true, false) (MA.seq s s)
+  | .pointer c => mapThenArray c
+  | .record _ cs _ => cs.foldl (fun acc c => MA.seq acc (mapThenArray c)) (false, false, false)
+  | .union cs => cs.foldl (fun acc c => let s := mapThenArray c; (acc.1 || s.1, acc.2.1 || s.2.1, acc.2.2 || s.2.2)) (false, false, false)
+  | .unionOne c _ => mapThenArray c
+  | _ => (false, false, false)
+
+/-- may the recorded finding D14 explain memory / time spent on this case? only if an array count can be reached by the
+damage: a mutated MAP count is not D14 unless an array count is decoded after that map count -/
 def d14Applies (codec : Codec) (tag : String) : Bool :=
-  hasArray codec && !(tag == "mcount" && !arrayUnderMap codec)
+  hasArray codec && !(tag == "mcount" && !(mapThenArray codec).2.2)
 
 def malCodec (env : Env) (op : String) (ty s bs : Sexp) (tag : String) (impl : Sexp) : Verdict :=
   match parseGoType ty, parseSchema s, asBytes bs with
